@@ -89,13 +89,25 @@ func newAllocAnchors(p *core.Prog) *allocAnchors {
 		return a
 	}
 	// inuse = 64-bit field stored in a method; limit = 64-bit field never stored outside the constructor literal
-	st := a.typ.Underlying().(*types.Struct)
+	st := core.FlatStruct(a.typ) // the counters may sit in an embedded accounting struct
+	flat := map[*types.Var]bool{}
+	for k := 0; k < st.NumFields(); k++ {
+		flat[st.Field(k)] = true
+	}
 	stored := map[*types.Var]bool{}
 	for _, fn := range p.FuncsIn(func(pp string) bool { return pp == pkgCommonArrow }) {
 		core.EachInstr(fn, func(i ssa.Instruction) {
 			if s, ok := i.(*ssa.Store); ok {
-				if fa, ok := s.Addr.(*ssa.FieldAddr); ok && core.NamedOf(fa.X.Type()) == a.typ {
-					if _, lit := fa.X.(*ssa.Alloc); !lit {
+				if fa, ok := s.Addr.(*ssa.FieldAddr); ok && flat[core.FieldVar(fa)] {
+					root := fa.X
+					for {
+						up, ok := root.(*ssa.FieldAddr) // a nested literal: &lit.budget.limit
+						if !ok {
+							break
+						}
+						root = up.X
+					}
+					if _, lit := root.(*ssa.Alloc); !lit {
 						stored[core.FieldVar(fa)] = true
 					}
 				}
@@ -122,6 +134,38 @@ func newAllocAnchors(p *core.Prog) *allocAnchors {
 		}
 	}
 	return a
+}
+
+// self: n is the allocator type or a repository struct embedded in it (an accounting sub-struct with its own methods).
+func (a *allocAnchors) self(n *types.Named) bool {
+	if n == nil || a.typ == nil {
+		return false
+	}
+	if n == a.typ {
+		return true
+	}
+	st := core.FlatStruct(a.typ)
+	for k := 0; k < st.NumFields(); k++ {
+		if f := st.Field(k); f.Embedded() && core.NamedOf(f.Type()) == n {
+			if _, isStruct := n.Underlying().(*types.Struct); isStruct {
+				return true
+			}
+		}
+	}
+	return false
+}
+
+// litRoot: addr is a field (of a field …) of a composite literal under construction.
+func litRoot(addr ssa.Value) bool {
+	for {
+		fa, ok := addr.(*ssa.FieldAddr)
+		if !ok {
+			break
+		}
+		addr = fa.X
+	}
+	_, lit := addr.(*ssa.Alloc)
+	return lit
 }
 
 func (a *allocAnchors) ok(c *core.Ctx) bool {
@@ -216,7 +260,7 @@ func (a *allocAnchors) admitHelper(fn *ssa.Function, under *ssa.Call) (*ssa.Func
 			return
 		}
 		callee := cl.Call.StaticCallee()
-		if callee == nil || callee == fn || callee.Signature.Recv() == nil || core.NamedOf(callee.Signature.Recv().Type()) != a.typ {
+		if callee == nil || callee == fn || callee.Signature.Recv() == nil || !a.self(core.NamedOf(callee.Signature.Recv().Type())) {
 			return
 		}
 		pan := false
@@ -446,7 +490,7 @@ func c14_1(c *core.Ctx, p *core.Prog) {
 						return
 					}
 					h := cl.Call.StaticCallee()
-					if h == nil || len(h.Blocks) == 0 || h.Signature.Recv() == nil || core.NamedOf(h.Signature.Recv().Type()) != a.typ {
+					if h == nil || len(h.Blocks) == 0 || h.Signature.Recv() == nil || !a.self(core.NamedOf(h.Signature.Recv().Type())) {
 						return
 					}
 					for k, arg := range cl.Call.Args {
@@ -482,12 +526,12 @@ func c14_1(c *core.Ctx, p *core.Prog) {
 	// inuse written only by the allocator's own methods
 	var outside []string
 	for _, fn := range rootFuncs(c, p) {
-		if fn.Signature.Recv() != nil && core.NamedOf(fn.Signature.Recv().Type()) == a.typ {
+		if fn.Signature.Recv() != nil && a.self(core.NamedOf(fn.Signature.Recv().Type())) {
 			continue
 		}
 		core.EachInstr(fn, func(i ssa.Instruction) {
 			if s, ok := storesTo(i, a.inuse); ok {
-				if _, lit := s.Addr.(*ssa.FieldAddr).X.(*ssa.Alloc); !lit {
+				if !litRoot(s.Addr) {
 					outside = append(outside, p.Pos(s.Pos()))
 				}
 			}
@@ -513,7 +557,14 @@ func c14_2(c *core.Ctx, p *core.Prog) {
 	}
 	// panic operand types
 	var panicT []types.Type
-	for _, fn := range a.methods(p) {
+	fns := a.methods(p)
+	for _, fn := range p.FuncsIn(func(pp string) bool { return pp == pkgCommonArrow }) {
+		// methods of an accounting struct embedded in the allocator
+		if fn.Signature.Recv() != nil && fn.Parent() == nil && core.NamedOf(fn.Signature.Recv().Type()) != a.typ && a.self(core.NamedOf(fn.Signature.Recv().Type())) {
+			fns = append(fns, fn)
+		}
+	}
+	for _, fn := range fns {
 		core.EachInstr(fn, func(i ssa.Instruction) {
 			if pn, ok := i.(*ssa.Panic); ok {
 				if mi, ok := pn.X.(*ssa.MakeInterface); ok {
@@ -834,7 +885,7 @@ func c14_5(c *core.Ctx, p *core.Prog) {
 	for _, fn := range rootFuncs(c, p) {
 		core.EachInstr(fn, func(i ssa.Instruction) {
 			if s, ok := storesTo(i, a.limit); ok {
-				if _, lit := s.Addr.(*ssa.FieldAddr).X.(*ssa.Alloc); !lit {
+				if !litRoot(s.Addr) {
 					wr = append(wr, p.Pos(s.Pos()))
 				}
 			}
@@ -1173,7 +1224,7 @@ func keepRule(c *core.Ctx, p *core.Prog, typeName, resType, ctorName, relMethod 
 		}
 		core.EachInstr(fn, func(i ssa.Instruction) {
 			if s, ok := storesTo(i, rdF); ok {
-				if _, lit := s.Addr.(*ssa.FieldAddr).X.(*ssa.Alloc); lit {
+				if litRoot(s.Addr) {
 					return
 				}
 				nS++
